@@ -905,8 +905,13 @@ class Evaluator(object):
                 return strcat(ka, kb)
             for one, times in ((ka, kb), (kb, ka)):
                 if one[0] == 'list' and len(one[1]) == 1 \
+                        and one[1][0][0] in ('name', 'bv', 'const', 'num',
+                                             'attr', 'sub', 'carried',
+                                             'snapshot', 'poly') \
                         and times[0] not in ('list', 'tuple', 'const',
                                              'strcat'):
+                    # (an element that is built afresh -- [[]] * n -- is one
+                    # shared object, not n objects: left alone)
                     # [x] * n  ==  [x for _ in range(n)]
                     return ('comp', 'list', one[1][0], ((
                         ('bv', self.depth),
@@ -2409,7 +2414,7 @@ class Summarizer(Evaluator):
                 return None
             if kind == 'method' and isinstance(f, ast.Attribute) \
                     and isinstance(f.value, ast.Name) \
-                    and f.value.id == 'self' \
+                    and f.value.id in ('self', 'cls') \
                     and METHOD_DEF_COUNT.get(target.name, 2) != 1:
                 return None
             if len(target.body) > 25:
